@@ -14,6 +14,10 @@ from .model import INVALID, UNIQUE, MTree, MNode, Refused, all_reasons
 
 # the "other" tree used for cross-tree copies / add(tree)
 OTHER = gen.Spec(((-1, "p", None, None), (0, "q", None, None), (-1, "a", None, None), (-1, "r", None, None)))
+# a second foreign tree whose labels never occur in the enumerated states: adding it is never refused for uniqueness, so the
+# positions `before=` can take next to two or more existing children (of mixed kinds, in typed trees) are really exercised
+OTHER_NC = gen.Spec(((-1, "u", None, None), (0, "v", None, None), (-1, "w", None, None)))
+OTHER_NC_TYPED = gen.Spec(((-1, "u", None, "k2"), (0, "v", None, "k1"), (-1, "w", None, "k1")), typed=True)
 OTHER_TYPED = gen.Spec(((-1, "p", None, "k1"), (0, "q", None, "k2"), (-1, "a", None, "k2"), (-1, "r", None, "k1")), typed=True)
 
 
@@ -37,6 +41,9 @@ class World:
             self.otree, self.onodes = gen.build(osp, name="O", flavour=flavour, mk=self.mk)
             self.omtree, self.omnodes = MTree.from_spec(osp, [self.mk(r[1]) for r in osp.nodes], calc=calc)
             self.other_obs0 = view.obs(self.otree)
+            osp2 = OTHER_NC_TYPED if spec.typed else OTHER_NC
+            self.otree2, self.onodes2 = gen.build(osp2, name="O2", flavour=flavour, mk=self.mk)
+            self.omtree2, self.omnodes2 = MTree.from_spec(osp2, [self.mk(r[1]) for r in osp2.nodes], calc=calc)
 
     # -- reference resolution
     def rn(self, i):
@@ -118,6 +125,12 @@ def _apply_real(w: World, op: tuple):
         if t == "addtree":
             _, p, b, deep = op
             return "ok", w.rt(p).add(w.otree, before=w.before_real(b), deep=deep)
+        if t == "addtree_nc":
+            _, p, b, deep = op
+            return "ok", w.rt(p).add(w.otree2, before=w.before_real(b), deep=deep)
+        if t == "shortcut_tree":  # append_child / prepend_child / prepend_sibling / append_sibling handed a whole tree
+            _, name, ref = op
+            return "ok", getattr(w.rn(ref), name)(w.otree2)
         if t == "addself":  # the tree added into one of its own nodes
             return "ok", w.rt(op[1]).add(w.tree)
         if t == "copy_to":
@@ -218,6 +231,21 @@ def apply_model(w: World, op: tuple):
         if t == "addtree":
             _, p, b, deep = op
             return "ok", M.add_tree(w.mn(p), w.omtree, before=w.before_model(b), deep=deep)
+        if t == "addtree_nc":
+            _, p, b, deep = op
+            return "ok", M.add_tree(w.mn(p), w.omtree2, before=w.before_model(b), deep=deep)
+        if t == "shortcut_tree":
+            _, name, ref = op
+            n = w.mn(ref)
+            if name == "append_child":
+                return "ok", M.add_tree(n, w.omtree2, before=None, deep=None)
+            if name == "prepend_child":
+                return "ok", M.add_tree(n, w.omtree2, before=True, deep=None)
+            if name == "prepend_sibling":
+                return "ok", M.add_tree(n.parent, w.omtree2, before=n, deep=None)
+            sibs = n.parent.children
+            i = next(k for k, c in enumerate(sibs) if c is n)
+            return "ok", M.add_tree(n.parent, w.omtree2, before=sibs[i + 1] if i + 1 < len(sibs) else None, deep=None)
         if t == "addself":
             # a (deep) copy of every top-level branch below a node of that very tree: the target lies inside one of the
             # branches to be copied (or is the root, whose children the copies would duplicate) -> refused, nothing changes
@@ -493,6 +521,16 @@ def enum_ops(spec: gen.Spec, groups=("add", "shortcut", "addnode", "addtree", "m
                 yield ("addtree", p, b, None)
             yield ("addtree", p, None, False)
             yield ("tree_copy_to", p, True)
+            for b in befores(w, p, extra_foreign=False):
+                yield ("addtree_nc", p, b, None)
+            yield ("addtree_nc", p, True, False)
+        if not typed:  # (the typed shortcuts take a kind for data children; a tree child is documented for the plain ones)
+            for p in P:
+                yield ("shortcut_tree", "append_child", p)
+                yield ("shortcut_tree", "prepend_child", p)
+            for i in range(n):
+                yield ("shortcut_tree", "prepend_sibling", i)
+                yield ("shortcut_tree", "append_sibling", i)
     if "move" in groups:
         for i in range(n):
             for p in P:
@@ -543,4 +581,4 @@ def enum_ops(spec: gen.Spec, groups=("add", "shortcut", "addnode", "addtree", "m
 
 
 def needs_other(op) -> bool:
-    return op[0] in ("addnode_x", "addtree", "tree_copy_to", "move_x")
+    return op[0] in ("addnode_x", "addtree", "addtree_nc", "shortcut_tree", "tree_copy_to", "move_x")
